@@ -26,7 +26,7 @@ func init() {
 			"LIKE patterns contain no backslash; non-ASCII characters in data are caseless, so ASCII folding is the case-insensitivity asserted",
 			"numeric literals are rendered without exponent; the reference model (internal/ref) is trusted",
 		},
-		Floor:         featList("op.eq", "op.ne", "op.lt", "op.le", "op.gt", "op.ge", "and", "or", "not", "in", "notin", "in.subquery", "between", "notbetween", "like", "notlike", "isnull", "isnotnull", "istrue", "isfalse", "law.partition", "law.notin", "law.between", "native-int", "in.subquery.correlated"),
+		Floor:         featList("op.eq", "op.ne", "op.lt", "op.le", "op.gt", "op.ge", "and", "or", "not", "in", "notin", "in.subquery", "between", "notbetween", "like", "notlike", "isnull", "isnotnull", "istrue", "isfalse", "law.partition", "law.notin", "law.between", "native-int", "in.subquery.correlated", "naming.alias", "naming.alias-unqualified", "naming.table-qualified"),
 		MinNontrivial: 50,
 		Phases: []fw.Phase{
 			{Name: "pred", N: func(t fw.Tier) int { return pick(t, 16000, 600000) }, Run: c01Pred},
@@ -73,16 +73,39 @@ func c01Pred(c *fw.Case) {
 	if c.Idx < 3*len(c01Forced) {
 		g.Force = c01Forced[c.Idx%len(c01Forced)]
 	}
-	p := g.Gen()
-	alias := ""
-	if c.Chance(0.15) {
-		alias = "x"
+	// how the columns are named: plainly; qualified by the table's alias;
+	// without the alias although the table has one; with the table's own name
+	naming := ""
+	if g.Force == "" {
+		switch c.Intn(12) {
+		case 0, 1:
+			naming = "alias"
+		case 2:
+			naming = "alias-unqualified"
+			g.Correlate = false
+		case 3:
+			naming = "table-qualified"
+			g.Correlate = false
+		}
 	}
-	where, feats := c01Render(c, p, alias)
+	p := g.Gen()
+	alias, qualifier := "", ""
+	switch naming {
+	case "alias":
+		alias, qualifier = "x", "x"
+	case "alias-unqualified":
+		alias = "x"
+	case "table-qualified":
+		qualifier = "t1"
+	}
+	where, feats := c01Render(c, p, qualifier)
 	sql := "SELECT * FROM t1 WHERE " + where
 	if alias != "" {
 		sql = "SELECT * FROM t1 x WHERE " + where
 		feats = append(feats, "from.alias")
+	}
+	if naming != "" {
+		feats = append(feats, "naming."+naming)
 	}
 	// reference
 	var want []map[string]any
